@@ -598,8 +598,8 @@ func (n *neg32) checkUses(r *Result, fa *FA, v ssa.Value, upper bool, deferLower
 				if other == v {
 					other = u.X
 				}
-				if c, ok := other.(*ssa.Const); ok && c.Value != nil && c.Int64() == 0 {
-					continue // the sign test itself
+				if c, ok := other.(*ssa.Const); ok && c.Value != nil {
+					continue // the sign test itself, or a range test against a constant: a test uses nothing
 				}
 				use = "bound of a comparison"
 			case token.MUL, token.ADD, token.SUB:
